@@ -15,7 +15,12 @@ func fix4(b []byte) (what string, accepted bool) {
 			what = fmt.Sprint("panic: ", e)
 		}
 	}()
-	p0, err := dhcpv4.FromBytes(b)
+	// decoded as a receiver decodes: from a buffer that is reused at once
+	rb := append([]byte{}, b...)
+	p0, err := dhcpv4.FromBytes(rb)
+	for i := range rb {
+		rb[i] ^= 0x5a
+	}
 	if err != nil {
 		return "", false
 	}
